@@ -92,8 +92,15 @@ def gen_recent_case(rng: random.Random, tier: str, backends=('dict',)) -> dict:
                     {'kind': 'fetch', 'uid': False, 'set': '1:*',
                      'attrs': ['UID', 'FLAGS'], 'post_select': True},
                     {'kind': 'search', 'uid': True, 'keys': 'RECENT'}]
-            elif r < 0.27:
+            elif r < 0.24:
                 acts.append({'sess': sess, 'kind': 'close'})
+                state[sess] = 'none'
+            elif r < 0.27:
+                # leave INBOX by selecting something else, or by a SELECT
+                # that fails (which must deselect as well)
+                acts.append({'sess': sess, 'kind': rng.choice(
+                    ['select', 'examine']), 'mailbox': rng.choice(
+                        ['Missing', 'Missing', 'Other'])})
                 state[sess] = 'none'
             elif r < 0.33:
                 acts.append({'sess': sess, 'kind': rng.choice(
